@@ -1,4 +1,5 @@
 import PRV.Model.Delivery
+import PRV.Props.C11
 /-
 C09 — Delivery to a contract tracks the contracted rate.
 Theorems about the cycle accounting of `Model/Delivery.lean`.  Partial: the accounting is proved
@@ -143,7 +144,7 @@ theorem request_is_what_is_owed (a : Acc) (actuals : List Int) (x : Int) :
 
 /-- an allocator never claims more than it was asked for, nor a negative amount -/
 def Sane (al : Alloc) : Prop :=
-  (∀ r, 0 ≤ al.addFull r ∧ al.addFull r ≤ r ∨ r < 0) ∧ (∀ r, 0 ≤ al.addPartial r ∧ al.addPartial r ≤ r ∨ r < 0)
+  (∀ r, 0 ≤ r → 0 ≤ al.addFull r ∧ al.addFull r ≤ r) ∧ (∀ r, 0 ≤ r → 0 ≤ al.addPartial r ∧ al.addPartial r ≤ r)
 
 /-- `adjust` moves the request by exactly what was arranged: whole miners added less whole miners shed,
 plus the one-cycle jobs placed — nothing is lost in between -/
@@ -194,6 +195,78 @@ theorem ideal_replaces_at_once (a : Acc) (owed : Int) (h0 : a.target = 0) (hsig 
   by_cases h2 : 0 + owed > thresholdFull <;> simp [h3'] <;> omega
 
 example : (replace ideal { H := 3000, target := 0 } 2000 false).2 = 2000 := by decide
+
+/-! ### never ahead, for every allocator that is sane — and the real one is -/
+
+/-- with a sane allocator a significant positive request is never over-arranged: what stays requested lies
+between nothing and the request, no full miner is shed, and request + arranged is conserved -/
+theorem adjust_within (al : Alloc) (hs : Sane al) (a : Acc) (hpos : thresholdAdjust < a.target) :
+    0 ≤ (adjust al a).1.target ∧ (adjust al a).1.target ≤ a.target ∧
+    a.full ≤ (adjust al a).1.full ∧ 0 ≤ (adjust al a).2 ∧
+    (adjust al a).1.target + ((adjust al a).1.full - a.full) + (adjust al a).2 = a.target := by
+  obtain ⟨hf, hp⟩ := hs
+  simp only [tA] at hpos
+  have hna : ¬ (a.target.natAbs ≤ thresholdAdjust.natAbs) := by simp only [tA]; omega
+  have h1 : ¬ (a.target < -thresholdFull) := by simp only [tF]; omega
+  unfold adjust
+  simp only [hna, if_false, h1, Int.add_zero, Int.sub_zero]
+  by_cases h2 : a.target > thresholdFull
+  · simp only [h2, if_true]
+    obtain ⟨f0, f1⟩ := hf a.target (by omega)
+    by_cases h3 : a.target - al.addFull a.target > thresholdPartial
+    · simp only [h3, if_true]
+      obtain ⟨p0, p1⟩ := hp (a.target - al.addFull a.target) (by omega)
+      refine ⟨by omega, by omega, by omega, by omega, by omega⟩
+    · simp only [h3, if_false]
+      refine ⟨by omega, by omega, by omega, by omega, by omega⟩
+  · simp only [h2, if_false, Int.sub_zero]
+    have h3 : a.target > thresholdPartial := by simp only [tP]; omega
+    simp only [h3, if_true]
+    obtain ⟨p0, p1⟩ := hp a.target (by omega)
+    refine ⟨by omega, by omega, by omega, by omega, by omega⟩
+
+/-- **never ahead, whatever the allocator can arrange**: in a cycle that starts with a significant request which is
+what the books say is owed, a sane allocator — the real one is (C11) — never lets the cycle deliver more than the
+rate plus the shortfall carried so far, so the account never goes into surplus -/
+theorem sane_cycle_not_ahead (al : Alloc) (hs : Sane al) (a : Acc) (lost : Int) (hl : 0 ≤ lost)
+    (hreq : a.target = a.H - a.full + a.gU) (hpos : thresholdAdjust < a.target) :
+    (cycle al a lost).2 ≤ a.H + a.gU ∧ 0 ≤ (cycle al a lost).1.gU := by
+  obtain ⟨h0, _, _, _, hsum⟩ := adjust_within al hs a hpos
+  have hg : (adjust al a).1.gU = a.gU ∧ (adjust al a).1.H = a.H := by
+    unfold adjust; split <;> simp
+  unfold cycle cycleEnd
+  simp only []
+  constructor
+  · omega
+  · rw [hg.1, hg.2]; omega
+
+
+theorem fits_total_nonneg (a : PRV.Model.Alloc.Allocs) (r : Rat) (h : PRV.Props.C11.FitsSeq a r) : 0 ≤ PRV.Model.Alloc.total a := by
+  induction a generalizing r with
+  | nil => simp [PRV.Model.Alloc.total]
+  | cons x rest ih =>
+    obtain ⟨id, v⟩ := x
+    obtain ⟨h1, _, h3⟩ := h
+    have := ih _ h3
+    simp only [PRV.Model.Alloc.total, List.map_cons, List.sum_cons] at this ⊢
+    linarith
+
+/-- **the allocator of C11, as the seller watcher uses it, is sane**: what `addFullMiners` books as arranged
+(`request − remainder` of `AllocateFullMinersForHR`) lies between nothing and the request, and so does what
+`addPartialMiners` books (`job − remainder` of `AllocatePartialForJob`) — for every fleet and every request -/
+theorem real_allocator_claims_are_sane (pop : List PRV.Model.Alloc.Miner) (r : Rat) (rem : Int) (h0 : 0 ≤ r)
+    (hwf : ∀ m ∈ pop, m.tasks = 0 → m.scheduled = 0) :
+    (0 ≤ r - (PRV.Model.Alloc.allocateFull pop r).2 ∧ r - (PRV.Model.Alloc.allocateFull pop r).2 ≤ r) ∧
+    (r - (PRV.Model.Alloc.allocatePartial pop r rem).2 ≤ r) := by
+  obtain ⟨_, h2, h3⟩ := PRV.Props.C11.full_never_overcommits pop r h0
+  have h4 := fits_total_nonneg _ _ h3
+  have h5 := PRV.Props.C11.full_remainder_nonneg (PRV.Model.Alloc.freeItems pop 0) r h0
+  have h6 := (PRV.Props.C11.partial_spec pop r rem h0 hwf).2.2.2
+  refine ⟨⟨?_, ?_⟩, ?_⟩
+  · rw [h2]; linarith
+  · unfold PRV.Model.Alloc.allocateFull; linarith
+  · linarith
+
 
 /-- a contract at or under the adjustment threshold is not served in a steady account (the request is
 not "significant"); it is served every other cycle once the shortfall has doubled the request -/
